@@ -109,6 +109,8 @@ def check_minixr():
                 ("merge", lambda: A.merge(B, compat="no_conflicts"), lambda: rA.merge(rB, compat="no_conflicts")),
                 ("combine_first", lambda: A.combine_first(B), lambda: rA.combine_first(rB)),
                 ("xr.merge", lambda: mx.merge([A, B]), lambda: xr.merge([rA, rB])),
+                ("xr.merge-override", lambda: mx.merge([A, B], compat="override"),
+                 lambda: xr.merge([rA, rB], compat="override")),
             ):
                 om, orr = outcome(fm_), outcome(fr_)
                 if om[0] != orr[0]:
@@ -129,6 +131,10 @@ def check_minixr():
         n += 1
         for name, fm_, fr_ in (("merge2", lambda: A.merge(B, compat="no_conflicts"),
                                 lambda: rA.merge(rB, compat="no_conflicts")),
+                               ("merge2-override", lambda: mx.merge([A, B], compat="override"),
+                                lambda: xr.merge([rA, rB], compat="override")),
+                               ("merge2r-override", lambda: mx.merge([B, A], compat="override"),
+                                lambda: xr.merge([rB, rA], compat="override")),
                                ("cf2", lambda: A.combine_first(B), lambda: rA.combine_first(rB)),
                                ("cf2r", lambda: B.combine_first(A), lambda: rB.combine_first(rA))):
             om, orr = outcome(fm_), outcome(fr_)
